@@ -196,6 +196,9 @@ pub fn run_check(prop: &str, tier: &str) -> i32 {
             disk.cache = true;
             progs.extend(c07::programs(disk, thorough));
             schedprops::run_programs(progs, bound, 3000, budget, &schedprops::judge_linearizable, None, &["C07", "C20"], &mut report);
+            if report.violations.is_empty() {
+                c13::clock_supplement(&mut report, if thorough { 20.0 } else { 3.0 });
+            }
             report.set("explanation", "deviation-bounded depth-first exploration of all schedules of each program under a controlled scheduler over real threads (one runs at a time, switches only at hook points); every complete execution's call/return history is checked by brute-force linearization against the LWW model with the two permitted refusals");
         }
         "C08" => {
@@ -211,6 +214,7 @@ pub fn run_check(prop: &str, tier: &str) -> i32 {
             c17::check(tier, budget, &mut report);
         }
         "C18" => {
+            schedprops::STUCK_IS_A_VERDICT.store(true, std::sync::atomic::Ordering::Relaxed);
             let bound = if thorough { 3 } else { 2 };
             let mut progs = c08::contention_programs(thorough);
             progs.extend(c08::programs(false).into_iter().step_by(5));
@@ -285,6 +289,10 @@ pub fn run_check(prop: &str, tier: &str) -> i32 {
             let cs: Vec<Suite> = suites::crash_suites(thorough).into_iter().filter(|s| ["crash-core-v3", "crash-core-v2", "crash-edge-v1", "crash-ttl-v3"].contains(&s.name.as_str())).collect();
             let plan = crashprops::CrashPlan { crash: true, layout_tag: "C10", nest: 0, reopen_cycles: 0, sector_tear: false, layout: false, probe_auto_ts: true, continue_after: false };
             crashprops::crash_check(prop, cs, &["C12"], plan, budget * 0.4, &mut report);
+            // labelled sampling supplement for the window between two adjacent atomic steps of the clock
+            if report.violations.is_empty() {
+                c13::clock_supplement(&mut report, if thorough { 20.0 } else { 3.0 });
+            }
         }
         "C13" => {
             let s = pick(&["mem-core", "mem-wide", "mem-limit", "mem-ttl", "ts-mem-limit", "disk-limit", "focus-v3", "focus-v3-ttl", "edge-v1", "disk-v2"], thorough);
